@@ -11,6 +11,7 @@ import json
 import os
 import random
 import re
+import shutil
 import subprocess
 
 import scenario as S
@@ -196,11 +197,85 @@ def run(ctx):
             order_fake = sc.enum_random(walked, rng)
             for style in ("full", "hash", "none"):
                 one_style(ctx, eng, res, stats, sc, args, explicit, roots, walked, style, real, order_fake, it)
+        linked_worktree_cases(ctx, eng, res, stats)
     finally:
         eng.close()
     res.coverage_extra["input_distribution"] = stats
     res.assumptions = ["git 2.39.5 `rev-parse --verify` is the judge of what a description denotes"]
     return res
+
+
+def linked_worktree_cases(ctx, eng, res, stats):
+    """git-sizer started inside a LINKED worktree whose per-worktree references (HEAD, refs/bisect/bad) differ from the main
+    worktree's: names are resolved where the tool runs, so every description must `git rev-parse` there to the cited object,
+    and what is measured is what those names reach there."""
+    s = S.Scenario()
+    small = s.add({"kind": "blob", "data": b"s\n"})
+    big_a = s.add({"kind": "blob", "data": b"A" * 50000})
+    big_b = s.add({"kind": "blob", "data": b"B" * 90000})
+    big_x = s.add({"kind": "blob", "data": b"X" * 130000})
+    t_a = s.add({"kind": "tree", "entries": [(0o100644, b"a.bin", big_a), (0o100644, b"s", small)]})
+    t_b = s.add({"kind": "tree", "entries": [(0o100644, b"b.bin", big_b), (0o100644, b"s", small), (0o100644, b"t", small)]})
+    sub = s.add({"kind": "tree", "entries": [(0o100644, b"huge.bin", big_x)]})
+    t_x = s.add({"kind": "tree", "entries": [(0o40000, b"deep", sub), (0o100644, b"s", small), (0o100644, b"t", small), (0o100644, b"u", small)]})
+    c_a = s.add({"kind": "commit", "tree": t_a, "parents": [], "date": 1500000000})
+    c_b = s.add({"kind": "commit", "tree": t_b, "parents": [c_a], "date": 1500000100, "msg": b"b" * 500 + b"\n"})
+    c_x = s.add({"kind": "commit", "tree": t_x, "parents": [c_a], "date": 1500000200, "msg": b"x" * 900 + b"\n"})
+    s.refs += [(b"refs/heads/main", c_a), (b"refs/heads/other", c_b)]
+    s.compute()
+    d = os.path.join(eng.scratch, "lwt-main")
+    wt = os.path.join(eng.scratch, "lwt-linked")
+    s.materialise(d)
+    env = S.clean_env()
+
+    def git(args, cwd):
+        return subprocess.run(["git"] + args, cwd=cwd, env=env, stdout=subprocess.PIPE, stderr=subprocess.PIPE)
+    hexs = lambda x: s.oids[x].hex()
+    git(["symbolic-ref", "HEAD", "refs/heads/main"], d)
+    git(["reset", "-q", "--hard"], d)
+    if git(["worktree", "add", "-q", "--detach", wt, hexs(c_b)], d).returncode != 0:
+        return
+    git(["update-ref", "refs/bisect/bad", hexs(c_a)], d)         # the main worktree's bisection
+    git(["update-ref", "refs/bisect/bad", hexs(c_x)], wt)        # the linked worktree's: the biggest objects hang here only
+    for where, cwd in (("linked worktree", wt), ("main worktree", d)):
+        for args in ([], ["HEAD"], ["--branches", "HEAD"], ["refs/bisect/bad"]):
+            cli = ["--json", "--no-progress", "--names=full"] + args
+            rc, out, err = S.run_sizer(ctx["bins"]["sizer"], cwd, cli)
+            inp = {"where": where, "args": cli, "main HEAD": "refs/heads/main", "linked HEAD": hexs(c_b),
+                   "refs/bisect/bad": {"main": hexs(c_a), "linked": hexs(c_x)}}
+            res.case(("linked-worktree", where, tuple(args)), True)
+            if rc != 0:
+                res.violations.append(vlib.Violation("run failed: %s" % err[:200].decode("latin1"), inp))
+                continue
+            j = json.loads(out)
+            # what is measured: the commits reachable, in this worktree, from the roots as this worktree resolves them
+            if args == []:
+                tips = git(["for-each-ref", "--format=%(objectname)"], cwd).stdout.decode().split()
+            elif args == ["--branches", "HEAD"]:
+                tips = git(["for-each-ref", "--format=%(objectname)", "refs/heads"], cwd).stdout.decode().split() + ["HEAD"]
+            else:
+                tips = args
+            want = int(git(["rev-list", "--count"] + tips, cwd).stdout.decode().strip() or -1)
+            if j["unique_commit_count"] != want:
+                res.violations.append(vlib.Violation("inside the %s the commits measured are not those its own references reach" % where, inp,
+                                                     expected={"unique_commit_count": want}, observed={"unique_commit_count": j["unique_commit_count"]}))
+            for pkey, vkey, kind in SLOTS:
+                val = j.get(pkey)
+                if not val:
+                    continue
+                oidhex, _, desc = val.partition(" ")
+                desc = desc[1:-1] if desc.startswith("(") else ""
+                if not desc:
+                    continue
+                p = git(["rev-parse", "--verify", "--end-of-options", desc], cwd)
+                stats["descriptions_resolved_by_git"] += 1
+                got = p.stdout.decode().strip()
+                if p.returncode != 0 or got != oidhex:
+                    res.violations.append(vlib.Violation(
+                        "inside the %s the description printed for %s does not resolve (git rev-parse, same directory) to the cited object" % (where, pkey), inp,
+                        expected=oidhex, observed={"description": desc, "rev-parse": got or p.stderr.decode("latin1")[:100]}))
+    shutil.rmtree(wt, ignore_errors=True)
+    shutil.rmtree(d, ignore_errors=True)
 
 
 def one_style(ctx, eng, res, stats, sc, args, explicit, roots, walked, style, real, order_fake, it):
